@@ -26,6 +26,8 @@ const (
 	// a pod without requested ranges must be bound with the LOWEST address its key holds (ByKeyAndIPRanges(key, nil) is
 	// sorted since the fix of the no-ranges multi-owner defect)
 	SigNotLowest = "bound-ip-not-lowest-held"
+	// suffix of every signature when a configuration reload went through earlier in the history
+	SufAfterReload = ":after-reload"
 )
 
 type filterObs struct {
@@ -45,6 +47,9 @@ type monState struct {
 	prev  []plugin.IPAMRec // IPAM dump after the previous op
 	last  *filterObs
 	stats map[string]int // how often each statement of the property was actually evaluated
+	// a configuration reload went through earlier in this history: violations are tagged `:after-reload` (the property
+	// is judged against the configuration NOW in force, w.Pools)
+	reloaded bool
 	// observed `first` choices that are not the lowest address of the key (admissibility refinement choiceIsMin of
 	// Galaxy/Model/PluginC06.lean): reported as correspondence disagreements
 	notMin []string
@@ -176,14 +181,22 @@ func resClass(res string) string {
 // Monitor is the oracle of property C06, written from the property statement and evaluated on what the REAL Filter and
 // Bind answered: the filter result, the bind result class, the binding annotation as the (fake) API server stored it,
 // the IPAM dump before the filter and the pool configuration.  It is independent of the Lean model.
-func Monitor(w *plugin.World, step int) []hx.Violation {
-	var out []hx.Violation
+func Monitor(w *plugin.World, step int) (out []hx.Violation) {
 	st, _ := w.Mon["c06"].(*monState)
 	if st == nil {
 		st = &monState{stats: map[string]int{}}
 		w.Mon["c06"] = st
 	}
-	defer func() { st.prev = w.IPAMDump() }()
+	defer func() {
+		st.prev = w.IPAMDump()
+		if st.reloaded {
+			for i := range out {
+				if !strings.HasSuffix(out[i].Signature, SufAfterReload) {
+					out[i].Signature += SufAfterReload
+				}
+			}
+		}
+	}()
 	f := strings.Fields(w.LastOp.Line)
 	res := w.LastOp.Result
 	pools := w.Pools
@@ -231,6 +244,9 @@ func Monitor(w *plugin.World, step int) []hx.Violation {
 			}
 		}
 		st.last = obs
+		if st.reloaded {
+			st.stats["monitor:filter-after-reload"]++
+		}
 		if !obs.wf {
 			st.stats["monitor:filter-outside-wf-not-judged"]++
 			return nil
@@ -303,7 +319,7 @@ func Monitor(w *plugin.World, step int) []hx.Violation {
 					n, f[1], f[2], held)})
 			}
 		}
-	case w.LastOp.Kind == "bind" && len(f) == 9:
+	case w.LastOp.Kind == "bind" && (len(f) == 9 || (len(f) == 10 && f[9] == "truthful")):
 		last := st.last
 		st.last = nil
 		tp := w.TruthPod(f[1], f[2])
@@ -393,6 +409,10 @@ func Monitor(w *plugin.World, step int) []hx.Violation {
 	default:
 		if w.LastOp.Kind != "dump" {
 			st.last = nil
+		}
+		if w.LastOp.Kind == "reload" && res == "ok" {
+			st.reloaded = true
+			st.stats["monitor:reload-went-through"]++
 		}
 	}
 	return out
